@@ -102,6 +102,11 @@ class CleanUnit:
         calls = re.findall(r"(\w+) \(", arm_t)
         if "clean_command ( & path )" not in arm_t or any(c not in ("clean_command", "Ok", "Some") for c in calls):
             raise Undecided("main: the Clean arm no longer hands the user's path straight to clean_command (`clean_command(&path)`): what directory is cleaned is outside the extracted predicate")
+        # ---- the argument itself: clap must hand `path` over as the text the user typed (a value_parser could rewrite it)
+        cli_t = " ".join(src.toks("src/cli.rs"))
+        m = re.search(r"Clean \{ (.*?) path : (\w+) ,? \}", cli_t)
+        if not m or m.group(2) != "String" or "value_parser" in m.group(1) or "value_delimiter" in m.group(1):
+            raise Undecided("cli.rs: the `path` argument of `clean` is no longer a plain String taken as typed (a value parser may rewrite it): what directory is cleaned is outside the extracted predicate")
         # ---- predicate: statements of the loop body in front of the `if` + its condition; `VAR.file_name()` -> the parameter
         log = []
         prefix = Rule("Kt", f"let {var} = {var} ? ;", "", why="unwrapping of the directory entry dropped (the predicate takes its name)").apply(list(prefix), log)
